@@ -1,24 +1,66 @@
 /-
   C18 — SliceReader and VecWriter behave as a plain cursor and a plain byte vector.
-  Here the model *is* the reference (`Bytes` with take/drop, `Bytes` with append and `writeAt`);
-  the theorems are the algebra a user relies on, the tie to the code is the `rd` / `wr` streams.
+
+  Two objects on the Lean side.  The *model* renders the implementation: `SliceReader` as the remaining octets,
+  re-sliced by every operation (`ROp.run`, `runOps`, `runNested` over `Bytes` with take/drop), `VecWriter` as a byte
+  list with append and `writeAt`.  The *reference* is what the property compares with: a cursor that keeps the
+  original buffer, an absolute position and a limit and never re-slices (`RefCur`), and a byte vector whose positional
+  overwrite is defined octet by octet (`splice`).  The theorems below say that every operation sequence — sub-readers
+  that are themselves read from included — gives the same observations on both (`reader_sequence_refines`,
+  `nested_sequence_refines`, `writer_sequence_refines`); the `rd` / `wr` streams tie the model to the code.
 -/
-import Rl2tp.Model.Cursor
+import Rl2tp.Proofs.CursorRef
 namespace Rl2tp.C18
 
-/-- big-endian value of an octet string -/
-def beVal (c : Bytes) : Nat := c.foldl (fun a b => a * 256 + b.toNat) 0
+/-! ### one operation, exactly -/
 
-/-- how many octets an operation asks for -/
-def ROp.width : ROp → Nat
-  | .u8 => 1 | .u16 => 2 | .u32 => 4 | .u64 => 8
-  | .bytes n => n | .skip n => n | .sub n => n
+/-- within its precondition each operation answers with *its own* kind of value — the big-endian number of the next
+    1/2/4/8 octets, the next `n` octets, a sub-reader over the next `n` octets, or nothing for `skip` — and leaves
+    exactly the octets behind them; `bytes(n)` beyond the end answers `None` and leaves everything -/
+theorem op_exact (op : ROp) (s : Bytes) (h : ROp.pre op s) : op.run s = .ok (ROp.expected s op) := run_eq op s h
 
-/-- the precondition of an operation: enough octets remain (`bytes` has none: it answers `None`) -/
-def ROp.pre (op : ROp) (s : Bytes) : Prop :=
-  match op with
-  | .bytes _ => True
-  | _ => ROp.width op ≤ s.length
+/-- outside its precondition an unchecked operation never returns a value in the model (the contract is violated:
+    undefined behaviour or a panic in the implementation) -/
+theorem op_out_of_contract (op : ROp) (s : Bytes) (h : ¬ ROp.pre op s) : ∃ f, op.run s = .error f := run_fault op s h
+
+/-! ### every sequence, against the reference cursor -/
+
+/-- the reference cursor advances the position by exactly the amount requested, never touches the buffer or the
+    limit, and a refused `bytes` leaves it as it was -/
+theorem ref_step_position (c : RefCur) (op : ROp) (v : RVal) (c' : RefCur) (h : c.step op = some (v, c')) :
+    c'.buf = c.buf ∧ c'.lim = c.lim ∧ (c'.pos = c.pos + ROp.width op ∨ (v = .none ∧ c' = c)) := by
+  cases op <;> simp only [RefCur.step] at h <;> split at h <;>
+    first
+      | (simp only [Option.some.injEq, Prod.mk.injEq] at h; obtain ⟨rfl, rfl⟩ := h
+         first
+           | exact ⟨rfl, rfl, .inl rfl⟩
+           | exact ⟨rfl, rfl, .inr ⟨rfl, rfl⟩⟩)
+      | cases h
+
+/-- **Any** sequence of reader operations on any slice (here: any window `pos..lim` of any buffer): the model's
+    observations — each value, the octets left after each step, and whether the run stopped at a violated
+    precondition — are those of the reference cursor. -/
+theorem reader_sequence_refines (c : RefCur) (hwf : c.wf) (ops : List ROp) :
+    (runOps c.view ops).1 = (refRun c ops).1 ∧ (runOps c.view ops).2.isSome = (refRun c ops).2 :=
+  runOps_refines c hwf ops
+
+/-- … from the start of a slice -/
+theorem reader_sequence_from_start (data : Bytes) (ops : List ROp) :
+    (runOps data ops).1 = (refRun ⟨data, 0, data.length⟩ ops).1 ∧
+      (runOps data ops).2.isSome = (refRun ⟨data, 0, data.length⟩ ops).2 := by
+  have h := runOps_refines ⟨data, 0, data.length⟩ ⟨Nat.zero_le _, Nat.le_refl _⟩ ops
+  simpa [RefCur.view] using h
+
+/-- … and with sub-readers that are read from, nested to any depth: a sub-reader is the window `pos..pos+n` of the
+    same buffer (it can never see what lies behind its window, `bytes` beyond it answers `None`), the parent goes on
+    at `pos+n` -/
+theorem nested_sequence_refines (c : RefCur) (st : List RefCur) (hwf : c.wf) (hst : ∀ p ∈ st, p.wf) (ops : List NOp) :
+    (runNested c.view (st.map RefCur.view) ops).1 = (refRunNested c st ops).1 ∧
+      (runNested c.view (st.map RefCur.view) ops).2.isSome = (refRunNested c st ops).2 :=
+  runNested_refines c st hwf hst ops
+
+/-- integers are big-endian: the value read from the image of `v` is `v` -/
+theorem big_endian (v : UInt16) : beVal (be16 v) = v.toNat := beVal_be16 v
 
 /-- Within its precondition every operation returns exactly the next `width` octets (big-endian for
     integers), and leaves exactly the octets after them; `bytes(n)` with `n` too large returns nothing
@@ -116,8 +158,8 @@ theorem run_partition (op : ROp) (s r : Bytes) (v : RVal) (h : op.run s = .ok (v
       have hn : ¬ n ≤ s.length := hp
       simp [ROp.run, Rdr.sub, hn, Except.map] at h
 
-/-- any operation sequence that runs to the end leaves a suffix of the original slice, and the
-    length reported after each operation never increases -/
+/-- in any operation sequence that runs to the end, the length reported after each operation never exceeds the
+    initial one (the exact values are those of the reference cursor: `reader_sequence_refines`) -/
 theorem runOps_suffix (s : Bytes) (ops : List ROp) (vs : List (RVal × Nat)) (h : runOps s ops = (vs, none)) :
     ∀ p ∈ vs, p.2 ≤ s.length := by
   induction ops generalizing s vs with
@@ -169,8 +211,8 @@ theorem writeAt_exact (w bs : Bytes) (off : Nat) (h : off + bs.length ≤ w.leng
     simp
     omega
 
-/-- appends only extend: the buffer after a sequence of writer operations has every refused overwrite
-    ignored and its length is the sum of the appended widths -/
+/-- one step: an append extends by its width, an overwrite (accepted or refused) leaves the length alone; the
+    statement for sequences is `writer_sequence_length` -/
 theorem append_length (w : Bytes) (op : WOp) :
     (op.run w).1.length = w.length + (match op with
       | .bytes b => b.length | .u8 _ => 1 | .u16 _ => 2 | .u32 _ => 4 | .u64 _ => 8 | .at _ _ => 0) := by
@@ -192,7 +234,27 @@ theorem append_content (w : Bytes) :
     (WOp.run w (.u64 v64)).1 = w ++ be64 v64 ∧ (WOp.run w (.bytes b)).1 = w ++ b ∧ (WOp.run w (.u8 v8)).1 = w ++ [v8] := by
   simp [WOp.run]
 
+/-- **Any** sequence of writer operations from any starting content: the log (accepted / refused, length after each
+    step) and the final buffer are those of the reference vector — appends, and overwrites applied position by
+    position when the range lies inside what has been written, ignored otherwise -/
+theorem writer_sequence_refines (w : Bytes) (ops : List WOp) : runWOps w ops = refWRun w ops := runWOps_eq_ref w ops
+
+/-- the reference overwrite, octet by octet -/
+theorem splice_octet (w : Bytes) (off : Nat) (b : Bytes) (i : Nat) (hi : i < w.length) :
+    (splice w off b)[i]? = some (if off ≤ i ∧ i < off + b.length then b.getD (i - off) 0 else w.getD i 0) := by
+  simp [splice, List.getElem?_range, hi]
+
+/-- no sequence of operations changes the length except by what it appends: final length = initial length + the
+    widths of the appends (overwrites, accepted or refused, contribute nothing) -/
+theorem writer_sequence_length (w : Bytes) (ops : List WOp) :
+    (runWOps w ops).2.length = w.length + (ops.map WOp.appended).sum := by
+  rw [runWOps_eq_ref]; exact refWRun_length w ops
+
 /-! non-vacuity -/
+example : runNested [1, 2, 3, 4, 5, 6, 7, 8] [] [.push 3, .op (.bytes 4), .op (.bytes 3), .pop, .op (.bytes 5)] =
+    ([(.unit, 3), (.none, 3), (.octets [1, 2, 3], 0), (.unit, 5), (.octets [4, 5, 6, 7, 8], 0)], none) := by decide
+example : runWOps [] [.u16 258, .at 1 [9], .at 2 [7], .bytes [5]] = ([(true, 2), (true, 2), (false, 2), (true, 3)], [1, 9, 5]) := by
+  decide
 example : runOps [1, 2, 3, 4, 5] [.u16, .bytes 9, .sub 1, .skip 2] =
     ([(.num 258, 3), (.none, 3), (.subreader [3], 2), (.unit, 0)], none) := by decide
 example : writeAt [1, 2, 3] 1 [9, 9] = .ok [1, 9, 9] ∧ writeAt [1, 2, 3] 2 [9, 9] = .error .panic := by decide
